@@ -579,9 +579,16 @@ class Run:
         (tasks of C15 runs never share a generator, so any foreign draw is hidden shared state)."""
         if self.cfg.get("flavour", "inc") != "inc":
             return
-        ident = self.gen_identity(ts, oi, op)
+        if op["op"] == "stream" and op.get("also") is not None and rec.get("sources"):
+            # two streams in one operation: each source's draws belong to the stream that handled it
+            for s in rec["sources"]:
+                ident = ("s", ts.ti, s["sidx"] if s.get("sidx") is not None else op["s"])
+                self._offset_one(ts, oi, ident, ts.ctx.draws[s["d0"]:s.get("d1", s["d0"])], rec)
+            return
+        self._offset_one(ts, oi, self.gen_identity(ts, oi, op), rec.get("draws") or [], rec)
+
+    def _offset_one(self, ts, oi, ident, draws, rec):
         c = self.gen_counts.get(ident, 0)
-        draws = rec.get("draws") or []
         self.gen_counts[ident] = c + len(draws)
         want = [str(c + k) for k in range(len(draws))]
         if draws != want and not rec.get("offset_reported"):
